@@ -178,6 +178,7 @@ def run(ctx):
     # be the serial one.  (The schedule itself is modelled and trace-validated under C07; this is the C04 face of it.)
     concurrent_callers(ctx)
     layouts(ctx)
+    accessor_levels(ctx)
     ctx.assume("inputs are integer-valued (float32-exact); inputs whose exact level quotient is a half-integer are "
                "excluded unless (ihmax-1)/(zmax-zmin) is dyadic (C round() vs exact arithmetic)")
     ctx.assume("TLC's transcription is bound to the C code by exact output equality on every enumerated input and by "
@@ -251,6 +252,38 @@ def layouts(ctx):
                 bad += 1
                 ctx.violation({"where": "layout", "layout": name}, "np_ptm3 on a %s gives %d partitions, %d on the C-ordered copy of the same spectrum" %
                               (name, got.shape[0], ref.shape[0]), {"shape": [nk, nth]})
+
+
+def accessor_levels(ctx):
+    """the accessor entry points run the watershed at the REQUESTED number of levels: ptm3(ihmax=k) through DataArray and Dataset
+    accessors equals np_ptm3 at k levels (one basin at k = 1, as many as regional maxima of the k-level map otherwise)."""
+    import xarray as xr
+    from wavespectra.partition import partition as pmod
+    rng = np.random.RandomState(ctx.seed + 9)
+    nk, nth = 7, 8
+    freq, dirs = 0.05 + 0.03 * np.arange(nk), np.arange(nth) * (360.0 / nth)
+    ii, jj = np.meshgrid(np.arange(nk), np.arange(nth), indexing="ij")
+    for k in range(6 if ctx.quick else 60):
+        a = np.zeros((nk, nth))
+        for amp in (80, 30, 9, 3):
+            ci, cj = rng.randint(1, nk - 1), rng.randint(0, nth)
+            dj = np.minimum((jj - cj) % nth, (cj - jj) % nth)
+            a += np.maximum(0, amp - 0.35 * amp * (np.abs(ii - ci) + dj) ** 2)
+        a = a + 1.0
+        da = xr.DataArray(a[None], coords={"time": [0], "freq": freq, "dir": dirs}, dims=("time", "freq", "dir"), name="efth")
+        for ih in (1, 2, 4, 10, 100):
+            ref = np.asarray(pmod.np_ptm3(a, a, freq, dirs, None, ih))
+            nref = int((ref.reshape(ref.shape[0], -1).sum(axis=1) > 0).sum())
+            for how, acc in (("DataArray", da.spec), ("Dataset", da.to_dataset().spec)):
+                ctx.case(("acc-ihmax", k, ih, how), True)
+                got = acc.partition.ptm3(parts=8, ihmax=ih).isel(time=0).transpose("part", "freq", "dir").values
+                ngot = int((got.reshape(got.shape[0], -1).sum(axis=1) > 0).sum())
+                if ngot == nref and np.allclose(got[:nref], ref[:nref], rtol=1e-6):
+                    ctx.replayed()
+                else:
+                    ctx.violation({"where": "accessor", "clause": "requested-levels", "ihmax": ih},
+                                  "%s accessor ptm3(ihmax=%d) returns %d non-empty partitions, the watershed at %d levels has %d" % (how, ih, ngot, ih, nref),
+                                  {"spectrum": a.tolist()})
 
 
 def concurrent_callers(ctx):
